@@ -33,10 +33,10 @@ static void c05_delete(TopologyKernel &m, unsigned kind, unsigned a) {
 // entity counts of the bases (so that out-of-range selector values return before building anything);
 // checked against the built mesh by c05_counts_ok().
 static inline unsigned c05_base_count(unsigned base, unsigned kind) {
-  static const unsigned char T[12][4] = { {0,0,0,0}, {5,5,1,0}, {4,6,4,1}, {5,9,7,2}, {6,11,8,2}, {7,12,8,2}, {5,10,9,3}, {8,12,6,1}, {12,20,11,2}, {7,13,9,2}, {4,5,2,0}, {6,12,10,3} };
+  static const unsigned char T[14][4] = { {0,0,0,0}, {5,5,1,0}, {4,6,4,1}, {5,9,7,2}, {6,11,8,2}, {7,12,8,2}, {5,10,9,3}, {8,12,6,1}, {12,20,11,2}, {7,13,9,2}, {4,5,2,0}, {6,12,10,3}, {6,13,11,3}, {4,6,4,1} };
   if (kind < K_V || kind > K_C) return 0;
   if (base == C05_B_MINI) return kind == K_V ? 2 : (kind == K_E ? 1 : 0);
-  return base < 12 ? T[base][kind - 1] : 0;
+  return base < 14 ? T[base][kind - 1] : 0;
 }
 static inline bool c05_counts_ok(const TopologyKernel &m, unsigned base) {
   return c05_count(m, K_V) == c05_base_count(base, K_V) && c05_count(m, K_E) == c05_base_count(base, K_E) &&
